@@ -33,7 +33,10 @@ Inductive link_res :=
 | LTarget (raw : bytes) (exists_cut : bool)  (* os.readlink value; path_exists_strict answer *)
 | LENOENT | LESRCH | LEINVAL | LENAMETOOLONG | LEACCES | LEIO.
 Inductive isfile_res := IsReg | NotReg | StatDenied.
-Inductive fdinfo_res := FContent (b : bytes) | FENOENT | FEACCES.
+(* FRead*: the fdinfo file opens but the first read fails (the kernel generates the
+   content at read time: ENOENT when the descriptor was closed meanwhile, ESRCH when
+   the process is gone) *)
+Inductive fdinfo_res := FContent (b : bytes) | FENOENT | FEACCES | FReadENOENT | FReadESRCH.
 
 Record fdent := { fd_name : bytes; fd_link : link_res; fd_isfile : isfile_res; fd_info : fdinfo_res }.
 Record ofrow := { r_path : bytes; r_fd : Z; r_pos : Z; r_mode : fmode; r_flags : Z }.
@@ -65,7 +68,7 @@ Definition scan_one (e : fdent) : outcome ent_res :=
       | NotReg => Val Skip
       | IsReg =>
         match fd_info e with
-        | FENOENT => Val HitEnoent
+        | FENOENT | FReadENOENT | FReadESRCH => Val HitEnoent
         | FEACCES => Exc AccessDenied
         | FContent c =>
           do pf <- parse_fdinfo c;
